@@ -297,7 +297,7 @@ class Interp:
         if opn in ("udiv", "sdiv", "urem", "srem"):
             a, b = V(0), V(1)
             S.flags.add("hwdiv")
-            S.effects.append(("trap-div", opn, ins.get("loc")))
+            S.effects.append(("trap-div", opn, ins.get("loc"), self.lanes(b, n, eb), self.lanes(a, n, eb)))
             return T.concat([T.op(opn, eb, x, y) for x, y in zip(self.lanes(a, n, eb), self.lanes(b, n, eb))])
         if opn in ("fadd", "fsub", "fmul", "fdiv", "frem"):
             a, b = V(0), V(1)
